@@ -24,6 +24,8 @@ structure C09_Inv (s : St) : Prop where
   drainedEmpty : s.drained = true → s.shutdown = true ∧ ∀ n h, s.rows n h = []
   infoAlloc : ∀ w i, s.info w = some i → w < s.nextId
   pendingSub : ∀ p ∈ s.pending, p ∈ s.submitted
+  /-- an entry is flagged cancelled only after a waiter of that hash was told `cancelled` -/
+  lateOk : ∀ h ∈ s.cancelledSeen, ∃ w i, (w, Outcome.cancelled) ∈ s.delivered ∧ s.info w = some i ∧ i.hash = h
 
 theorem C09_inv_init : C09_Inv init := by
   constructor <;> simp [init, deliveredIds]
@@ -43,7 +45,7 @@ theorem C09_notify_inv (s : St) (n h : Nat) (o : Outcome) (c : Nat) (hI : C09_In
     C09_Inv (notify s n h o c) := by
   have hids := C09_deliveredIds_notify s n h o c
   have hrow_info : ∀ w, w ∈ s.rows n h → ∃ b, s.info w = some ⟨n, h, b⟩ := fun w hw => (hI.row n h w hw).2.2
-  refine ⟨?_, ?_, ?_, ?_, ?_, ?_, ?_, ?_, ?_, ?_, ?_⟩
+  refine ⟨?_, ?_, ?_, ?_, ?_, ?_, ?_, ?_, ?_, ?_, ?_, ?_⟩
   · -- row
     intro n' h' w hw
     by_cases hk : n' = n ∧ h' = h
@@ -115,6 +117,9 @@ theorem C09_notify_inv (s : St) (n h : Nat) (o : Outcome) (c : Nat) (hI : C09_In
     · simpa [notify, setRow, hk] using this.2 n' h'
   · exact hI.infoAlloc
   · exact hI.pendingSub
+  · intro h' hh
+    obtain ⟨w, i, h1, h2, h3⟩ := hI.lateOk h' hh
+    exact ⟨w, i, by simp only [notify]; exact List.mem_append_left _ h1, h2, h3⟩
 
 theorem C09_addWaiter_inv (s : St) (n h : Nat) (b : Bool) (hI : C09_Inv s) :
     C09_Inv (addWaiter s n h b).1 := by
@@ -126,7 +131,7 @@ theorem C09_addWaiter_inv (s : St) (n h : Nat) (b : Bool) (hI : C09_Inv s) :
       cases hd : s.drained with
       | false => rfl
       | true => exact absurd (hI.drainedEmpty hd).1 hs
-    refine ⟨?_, ?_, hI.once, ?_, hI.noCrash, fun hc => (hs (hI.closedAfter hc)).elim, ?_, ?_, ?_, ?_, hI.pendingSub⟩
+    refine ⟨?_, ?_, hI.once, ?_, hI.noCrash, fun hc => (hs (hI.closedAfter hc)).elim, ?_, ?_, ?_, ?_, hI.pendingSub, ?_⟩
     · intro n' h' w hw
       by_cases hk : n' = n ∧ h' = h
       · obtain ⟨rfl, rfl⟩ := hk
@@ -172,6 +177,11 @@ theorem C09_addWaiter_inv (s : St) (n h : Nat) (b : Bool) (hI : C09_Inv s) :
       · subst hw; exact Nat.lt_succ_self _
       · simp only [hw, ite_false] at hi
         exact Nat.lt_succ_of_lt (hI.infoAlloc w i hi)
+    · intro h' hh
+      obtain ⟨w, i, h1, h2, h3⟩ := hI.lateOk h' hh
+      refine ⟨w, i, h1, ?_, h3⟩
+      have : w ≠ s.nextId := Nat.ne_of_lt (hI.infoAlloc w i h2)
+      simp [this, h2]
 
 /-- draining = notifying `closed` row by row -/
 theorem C09_drain_fold_inv (ks : List (Nat × Nat)) (s : St) (hI : C09_Inv s) (hs : s.shutdown = true) :
@@ -192,13 +202,21 @@ theorem C09_step_inv (s : St) (op : Op) (hI : C09_Inv s) : C09_Inv (step s op).1
     simp only [step]
     apply C09_addWaiter_inv
     refine ⟨hI.row, hI.rowNodup, hI.once, hI.alloc, hI.noCrash, hI.closedAfter, hI.cancelOk, hI.receiptOk,
-      hI.drainedEmpty, hI.infoAlloc, ?_⟩
-    intro p hp
-    simp only [List.mem_cons] at hp ⊢
-    rcases hp with hp | hp
-    · exact Or.inl hp
-    · exact Or.inr (hI.pendingSub p hp)
-  | watch n h => exact C09_addWaiter_inv s n h false hI
+      hI.drainedEmpty, hI.infoAlloc, ?_, ?_⟩
+    · intro p hp
+      simp only [List.mem_cons] at hp ⊢
+      rcases hp with hp | hp
+      · exact Or.inl hp
+      · exact Or.inr (hI.pendingSub p hp)
+    · intro h' hh
+      exact hI.lateOk h' (List.mem_filter.mp hh).1
+  | watch n h =>
+    simp only [step]
+    split
+    · exact hI
+    · split
+      · exact hI
+      · exact C09_addWaiter_inv s n h false hI
   | reply c n h a =>
     simp only [step]
     by_cases hlt : n < c
@@ -215,13 +233,13 @@ theorem C09_step_inv (s : St) (op : Op) (hI : C09_Inv s) : C09_Inv (step s op).1
   | beginShutdown =>
     simp only [step]
     exact ⟨hI.row, hI.rowNodup, hI.once, hI.alloc, hI.noCrash, fun _ => rfl, hI.cancelOk, hI.receiptOk,
-      fun hd => ⟨rfl, (hI.drainedEmpty hd).2⟩, hI.infoAlloc, hI.pendingSub⟩
+      fun hd => ⟨rfl, (hI.drainedEmpty hd).2⟩, hI.infoAlloc, hI.pendingSub, hI.lateOk⟩
   | drain =>
     simp only [step]
     by_cases hs : s.shutdown = true
     · simp only [hs, Bool.not_true, Bool.false_eq_true, ite_false]
       obtain ⟨hJ, hsh⟩ := C09_drain_fold_inv s.keys s hI hs
-      refine ⟨?_, ?_, hJ.once, hJ.alloc, hJ.noCrash, hJ.closedAfter, hJ.cancelOk, hJ.receiptOk, ?_, hJ.infoAlloc, hJ.pendingSub⟩
+      refine ⟨?_, ?_, hJ.once, hJ.alloc, hJ.noCrash, hJ.closedAfter, hJ.cancelOk, hJ.receiptOk, ?_, hJ.infoAlloc, hJ.pendingSub, hJ.lateOk⟩
       · intro n h w hw; simp at hw
       · intro n h; simp
       · intro _; exact ⟨hsh, fun _ _ => rfl⟩
@@ -230,11 +248,23 @@ theorem C09_step_inv (s : St) (op : Op) (hI : C09_Inv s) : C09_Inv (step s op).1
   | observe w =>
     simp only [step]
     split
-    · split
+    · rename_i i a o hinfo hfind
+      split
       · refine ⟨hI.row, hI.rowNodup, hI.once, hI.alloc, hI.noCrash, hI.closedAfter, hI.cancelOk, hI.receiptOk,
-          hI.drainedEmpty, hI.infoAlloc, ?_⟩
-        intro p hp
-        exact hI.pendingSub p (List.mem_filter.mp hp).1
+          hI.drainedEmpty, hI.infoAlloc, ?_, ?_⟩
+        · intro p hp
+          exact hI.pendingSub p (List.mem_filter.mp hp).1
+        · intro h' hh
+          by_cases ho : o = .cancelled
+          · simp only [ho, ite_true, List.mem_cons] at hh
+            rcases hh with rfl | hh
+            · have hmem := List.mem_of_find?_eq_some hfind
+              have ha : a = w := by simpa using List.find?_some hfind
+              subst ha; subst ho
+              exact ⟨a, i, hmem, hinfo, rfl⟩
+            · exact hI.lateOk h' hh
+          · simp only [ho, ite_false] at hh
+            exact hI.lateOk h' hh
       · exact hI
     · exact hI
 
@@ -271,10 +301,18 @@ theorem C09_receipt_reply (s : St) (c n h st : Nat) (hlt : n < c) :
 /-- **Exactly-once, liveness half (shutdown)**: after the drain no waiter is left waiting, and new
 waiters are refused. -/
 theorem C09_drain_leaves_nobody (ops : List Op) (hd : (final init ops).drained = true) :
-    (∀ n h, (final init ops).rows n h = []) ∧ ∀ n h, (step (final init ops) (.watch n h)).2 = .refused := by
+    (∀ n h, (final init ops).rows n h = []) ∧
+    ∀ n h, (step (final init ops) (.watch n h)).2 = .refused ∨
+      (step (final init ops) (.watch n h)).2 = .lateCancelled ∨ (step (final init ops) (.watch n h)).2 = .unknownTx := by
   have hI := C09_reachable ops init C09_inv_init
   have := hI.drainedEmpty hd
-  exact ⟨this.2, fun n h => by simp [step, addWaiter, this.1]⟩
+  refine ⟨this.2, fun n h => ?_⟩
+  simp only [step]
+  split
+  · exact Or.inr (Or.inl rfl)
+  · split
+    · exact Or.inr (Or.inr rfl)
+    · exact Or.inl (by simp [addWaiter, this.1])
 
 /-- **Liveness half (resolution)**: when a check answers for a row, every waiter of that row gets
 its outcome in that very step and the row disappears. -/
@@ -285,6 +323,46 @@ theorem C09_reply_resolves_row (s : St) (c n h : Nat) (a : ChainAns) (hlt : n < 
   rcases ha with rfl | ⟨st, rfl⟩ <;>
     simp [step, hlt, notify, setRow, deliveredIds, List.map_append, List.map_map] <;>
     intro w hw <;> exact Or.inr hw
+
+/-- **Late callers are answered truthfully too**: `WaitForReceipt` answers "cancelled" at once only
+for a hash one of whose waiters was told `cancelled` by a snapshot above its nonce; it never
+registers a waiter in that case (nobody is left waiting). -/
+theorem C09_late_cancelled_truthful (ops : List Op) (n h : Nat)
+    (hl : (step (final init ops) (.watch n h)).2 = .lateCancelled) :
+    let s := final init ops
+    (∃ w c i, (w, Outcome.cancelled) ∈ s.delivered ∧ (w, c) ∈ s.cancelProof ∧ s.info w = some i ∧ i.hash = h ∧ i.nonce < c) ∧
+    (step s (.watch n h)).1 = s := by
+  have hI := C09_reachable ops init C09_inv_init
+  intro s
+  have hin : h ∈ s.cancelledSeen := by
+    by_cases hc : s.cancelledSeen.contains h = true
+    · simpa using hc
+    · exfalso
+      simp only [step] at hl
+      rw [if_neg hc] at hl
+      split at hl
+      · cases hl
+      · simp only [addWaiter] at hl
+        split at hl <;> cases hl
+  refine ⟨?_, ?_⟩
+  · obtain ⟨w, i, h1, h2, h3⟩ := hI.lateOk h hin
+    obtain ⟨c, i', h4, h5, h6⟩ := hI.cancelOk w h1
+    rw [h2] at h5
+    injection h5 with h5
+    subst h5
+    exact ⟨w, c, i, h1, h4, h2, h3, h6⟩
+  · have hc : s.cancelledSeen.contains h = true := by simpa using hin
+    simp only [step]
+    rw [if_pos hc]
+
+/-- a transaction the client still lists as pending can always be waited for (before shutdown):
+the caller gets a waiter, never "tx not found" -/
+theorem C09_pending_is_watchable (s : St) (n h : Nat) (hp : (h, n) ∈ s.pending)
+    (hc : h ∉ s.cancelledSeen) (hs : s.shutdown = false) :
+    ∃ id, (step s (.watch n h)).2 = .waiter id := by
+  have h2 : s.pending.any (fun p => p.1 = h) = true := by
+    rw [List.any_eq_true]; exact ⟨(h, n), hp, by simp⟩
+  simp [step, hc, h2, addWaiter, hs]
 
 /-- **Pending list**: never shows a transaction the node did not send -/
 theorem C09_pending_subset_submitted (ops : List Op) : ∀ p ∈ (final init ops).pending, p ∈ (final init ops).submitted :=
@@ -304,5 +382,8 @@ theorem C09_observe_removes (s : St) (w : Nat) (i : WInfo) (o : Outcome)
 example : (run init [.send 1 11, .send 2 22, .watch 2 22, .reply 3 1 11 (.receipt 1), .observe 0,
     .reply 3 2 22 .notFound, .beginShutdown, .watch 5 55, .reply 9 2 22 (.receipt 1), .drain, .reply 9 1 11 .notFound]).length = 11 ∧
     (final init [.send 1 11, .send 2 22, .watch 2 22, .reply 3 1 11 (.receipt 1), .observe 0,
-      .reply 3 2 22 .notFound]).delivered = [(0, .receipt 11 1), (1, .cancelled), (2, .cancelled)] := by
+      .reply 3 2 22 .notFound]).delivered = [(0, .receipt 11 1), (1, .cancelled), (2, .cancelled)] ∧
+    -- a late caller: the replaced tx answers "cancelled" at once, the mined one is unknown
+    run init [.send 1 11, .send 2 22, .reply 3 1 11 (.receipt 1), .observe 0, .reply 3 2 22 .notFound, .observe 1,
+      .watch 2 22, .watch 1 11] = [.waiter 0, .waiter 1, .none, .none, .none, .none, .lateCancelled, .unknownTx] := by
   decide
